@@ -54,20 +54,53 @@ def hasHuge (evs : List Ev) : Bool :=
     | c :: r, n => if isDigit c then go r (n + 1) else (n ≥ 20 || go r 0)
   go all 0
 
-/-- the orderings the property allows: the messages found at start-up, oldest first,
-equal modification times in any order -/
-def admissible (now : Nat) (fs : List File) : List (List File) :=
-  let elig := fs.filter (fun f => (f.path.take 4 == newSl || f.path.take 4 == curSl) &&
+/-- the messages the property speaks about: entries of new/ and cur/ found at start-up whose name
+does not begin with a dot and whose mtime is before `now` -/
+def eligibleFiles (now : Nat) (fs : List File) : List File :=
+  fs.filter (fun f => (f.path.take 4 == newSl || f.path.take 4 == curSl) &&
     (f.path.drop 4).head? != some DOT && f.mtime < now)
+
+/-- the eligible files grouped by mtime, oldest group first -/
+def mtimeGroups (elig : List File) : List (List File) :=
   let sorted := (elig.toArray.qsort (fun a b => a.mtime < b.mtime)).toList
-  -- groups of equal mtime
-  let groups := sorted.foldr (fun f (gs : List (List File)) => match gs with
+  sorted.foldr (fun f (gs : List (List File)) => match gs with
     | (g :: gt) :: rest => if g.mtime == f.mtime then (f :: g :: gt) :: rest else [f] :: (g :: gt) :: rest
     | _ => [[f]]) []
-  let combos := groups.foldr (fun g (acc : List (List File)) =>
-    let ps := (Pop3Ref.perms g).take 24
-    (ps.flatMap (fun p => acc.map (fun a => p ++ a))).take 200) [[]]
-  combos
+
+def factorial : Nat → Nat
+  | 0 => 1
+  | n + 1 => (n + 1) * factorial n
+
+/-- how many orderings the property allows: the product of the factorials of the group sizes -/
+def numberingCount (groups : List (List File)) : Nat := groups.foldl (fun a g => a * factorial g.length) 1
+
+/-- is `numbering` one of the orderings the property allows — a permutation of the eligible files,
+oldest first? (decided directly, independently of how the candidate was found) -/
+def isAdmissible (elig numbering : List File) : Bool :=
+  let srt (l : List File) := (l.toArray.qsort (fun a b => a.path < b.path)).toList.map (fun f => (f.path, f.data, f.mtime))
+  numbering.length == elig.length && srt numbering == srt elig &&
+    Pop3Ref.sortedBy (fun f : File => f.mtime) numbering
+
+/-- EXACT search: does some ordering — every permutation of every group of equal mtimes, groups in
+mtime order — satisfy `p`? Depth first and lazy: nothing is truncated, the search stops at the first
+witness. `fuel` ≥ number of files. -/
+def anyPerm : Nat → List File → List File → (List File → Bool) → Bool
+  | 0, _, _, _ => false
+  | fuel + 1, chosen, remaining, k =>
+    match remaining with
+    | [] => k chosen.reverse
+    | _ => (List.range remaining.length).any (fun i =>
+        match remaining[i]? with
+        | some f => anyPerm fuel (f :: chosen) (remaining.eraseIdx i) k
+        | none => false)
+
+def anyNumbering : List (List File) → List File → (List File → Bool) → Bool
+  | [], pre, p => p pre
+  | g :: rest, pre, p => anyPerm (g.length + 1) [] g (fun perm => anyNumbering rest (pre ++ perm) p)
+
+/-- above this many orderings a failing case is not searched exhaustively (it is counted as
+`oracle_skipped_ties` instead of being reported): 8! -/
+def numberingCap : Nat := 40320
 
 def toR (f : File) : Pop3Ref.RMsg := { path := f.path, data := f.data }
 
@@ -105,14 +138,31 @@ def handleP (st : Stats) (line : String) (fs : List String) : IO Stats := do
           -- documented maintenance: tmp/ files not accessed for 36 hours are removed at start-up
           let fs1 := files.filter (fun f => !(f.path.take 4 == tmpSl && (f.path.drop 4).head? != some DOT && now > f.atime + 129600))
           let revs := toREv evs
-          let cands := admissible now fs1
-          ok := cands.any (fun numbering =>
-            Pop3Ref.sessionOk (numbering.map toR) (fs1.map toR) revs out1 (after.map toR))
-          ok := ok && code == 0 && out2.isEmpty
-          -- classification only: is the failure explained by numbers being taken modulo 2^64?
-          let lenient := !ok && hasHuge evs && code == 0 && out2.isEmpty && cands.any (fun numbering =>
-            Pop3Ref.sessionOk (numbering.map toR) (fs1.map toR) revs out1 (after.map toR) (modulus := 18446744073709551616))
-          why := if lenient then "wrap" else "session"
+          let elig := eligibleFiles now fs1
+          let groups := mtimeGroups elig
+          let judge (modulus : Nat) (numbering : List File) : Bool :=
+            Pop3Ref.sessionOk (numbering.map toR) (fs1.map toR) revs out1 (after.map toR) (modulus := modulus)
+          -- The predicate is "SOME admissible numbering makes the transcript right". A first candidate is
+          -- the order the model computes (prioq.c breaks ties by heap shape); it counts only if it is
+          -- admissible by the independent definition. If it does not do, ALL admissible numberings are
+          -- searched (exactly, lazily) — unless there are more than `numberingCap` of them: then the case
+          -- is skipped and counted, never reported (the model comparison still covers it).
+          let hint := (getlist now fs1).filterMap (fun m => fs1.find? (fun f => f.path == m.fn))
+          let exists_ (modulus : Nat) : Option Bool :=
+            if isAdmissible elig hint && judge modulus hint then some true
+            else if numberingCount groups ≤ numberingCap then some (anyNumbering groups [] (judge modulus))
+            else none
+          match exists_ 0 with
+          | none => st := st.bump "oracle_skipped_ties"
+          | some found =>
+            ok := found && code == 0 && out2.isEmpty
+            -- classification only: is the failure explained by numbers being taken modulo 2^64?
+            let lenient := !ok && hasHuge evs && code == 0 && out2.isEmpty &&
+              exists_ 18446744073709551616 == some true
+            why := if lenient then "wrap" else "session"
+          if code != 0 || !out2.isEmpty then
+            ok := false
+            why := "session"
       if !ok then
         -- at most 25 reports of each kind per driver process (enumeration order: shortest first)
         let key := "oracle_" ++ why
